@@ -38,6 +38,17 @@ var replacements = map[string]string{
 	"(*github.com/cosmos/cosmos-sdk/codec.ProtoCodec).Unmarshal":     "PCUnmarshal",
 	"(*github.com/cosmos/cosmos-sdk/codec.ProtoCodec).MustUnmarshal": "PCMustUnmarshal",
 
+	// SDK staking / distribution (concrete keeper structs inside x/cpc) and what surrounds them in the staking precompile
+	"(github.com/cosmos/cosmos-sdk/x/staking/keeper.Keeper).BondDenom":                        "SKBondDenom",
+	"(github.com/cosmos/cosmos-sdk/x/staking/keeper.Keeper).ValidatorAddressCodec":            "SKValidatorAddressCodec",
+	"(github.com/cosmos/cosmos-sdk/x/staking/keeper.msgServer).Delegate":                      "SKDelegate",
+	"(github.com/cosmos/cosmos-sdk/x/staking/keeper.msgServer).Undelegate":                    "SKUndelegate",
+	"(github.com/cosmos/cosmos-sdk/x/staking/keeper.msgServer).BeginRedelegate":               "SKBeginRedelegate",
+	"(github.com/cosmos/cosmos-sdk/x/distribution/keeper.msgServer).WithdrawDelegatorReward":  "DKWithdrawDelegatorReward",
+	"github.com/cosmos/cosmos-sdk/types.ParseCoinsNormalized":                                 "ParseCoinsNormalized",
+	"encoding/json.Marshal":                                                                    "JsonMarshal",
+	"github.com/EscanBE/evermint/v12/x/cpc/eip712.VerifySignature":                            "Eip712VerifySignature",
+
 	// protobuf Any packing / type registry
 	"(github.com/cosmos/cosmos-sdk/x/authz.MsgExec).GetMessages":    "ExecGetMessages",
 	"(github.com/cosmos/cosmos-sdk/x/authz.Grant).GetAuthorization": "GrantGetAuthorization",
